@@ -738,10 +738,10 @@ def linearize(form, fields, trials=None):
 
     for I in integrals:
 
-        g0 = I.expr
-        g1 = I.expr.subs(zip(fields, new_fields))
-        temp=((g1-g0)/eps).expand()
-        dg_du = (temp).series(eps, 0, 2).subs(eps, 0)
+        # Gateaux derivative: d/d(eps) g(u + eps*du) at eps = 0 (a series expansion of
+        # (g1 - g0)/eps fails on integrands that are rational in the field's derivatives)
+        g1    = I.expr.subs(zip(fields, new_fields))
+        dg_du = g1.diff(eps).subs(eps, 0).expand()
 
         if dg_du:
             new_I = integral(I.domain, dg_du)
